@@ -191,7 +191,7 @@ func orderCase(k int, series string, i int64, layer string) (result, int) {
 		r.fail("C16:seq:panic:"+site, "order", "layer %s key %d %s %d: panic %v", layer, k, series, i, val)
 	}
 	if len(r.finds) == 0 {
-		r.out("order:" + layer + ":every-verdict-history-independent")
+		r.out("order:every-verdict-history-independent")
 	}
 	return r, lz
 }
